@@ -28,6 +28,8 @@ type family struct {
 	Core func(ss *slotSet, s slot, choice int) bool
 	// Restarts: additionally run every history with one restart after each of these heights (0 = none)
 	Restarts []int64
+	// OnlyBlocks: deviation slots exist only in these blocks (0-based) - for long histories whose interesting part is short
+	OnlyBlocks []int
 	// SumOnly: the family contains contracts that forward value, which the simple (non-EVM) model does not follow:
 	// only model-independent invariants (conservation of the total, no wrap-around) are judged, per-account findings are dropped.
 	SumOnly bool
@@ -74,7 +76,21 @@ func (c *modelCheck) build() {
 			n = 1
 		}
 		c.bases = append(c.bases, h)
-		c.slots = append(c.slots, historySlotsN(h, f.Menu, f.WithEnv, n, f.TxSlots))
+		ss := historySlotsN(h, f.Menu, f.WithEnv, n, f.TxSlots)
+		if f.OnlyBlocks != nil {
+			keep := map[int]bool{}
+			for _, b := range f.OnlyBlocks {
+				keep[b] = true
+			}
+			var sl []slot
+			for _, x := range ss.slots {
+				if keep[x.block] {
+					sl = append(sl, x)
+				}
+			}
+			ss.slots = sl
+		}
+		c.slots = append(c.slots, ss)
 	}
 }
 
